@@ -42,6 +42,14 @@ func genC15(seed uint64, tier string) *world.Scenario {
 			m[i] = i
 		}
 		m[255] = 255
+		if kernel.NewRand(seed, "c15.plateau").Bool(0.4) {
+			// a configured map with a plateau (a fan capped below full speed, or one that only knows a few
+			// levels): not strictly increasing, and to be used as it is all the same
+			for i := 128; i < 255; i += f.Driver.K {
+				m[i] = 128
+			}
+			m[255] = 128
+		}
 		f.PwmMap = &m
 	}
 	cfgLimits := kind == "hwmon" && r.Bool(0.35)
